@@ -28,7 +28,8 @@ def gen(rng):
     # how the identification value is reachable in the response: 0 plain, 1 inside a structure (SNPATHREF)
     # 2 plain, behind another positive response which decodes the same reply but lacks the parameter; 3 inside the
     # items of an end-of-PDU field (any item may match, none if the field is empty)
-    svcs = [dict(j=j + 1, shape=rng.choice([0, 0, 1, 2, 3])) for j in range(nsvc)]
+    # 4 inside a structure inside a structure (a path of three names)
+    svcs = [dict(j=j + 1, shape=rng.choice([0, 0, 1, 2, 3, 4])) for j in range(nsvc)]
     flavour = rng.choice(["ecu", "ecu", "base"])
     nvar = rng.choice([0, 1, 2, 3, 4])
     variants = []
@@ -39,7 +40,8 @@ def gen(rng):
             pat = []
             for _ in range(rng.choice([1, 1, 2, 3])):
                 s = rng.choice(svcs)
-                pat.append(dict(svc=s["j"], expected=str(rng.choice([0, 1, 2])), phys=rng.random() < 0.7))
+                # (expected values are compared verbatim: blanks count)
+                pat.append(dict(svc=s["j"], expected=rng.choice(["0", "1", "2", "0", "1", "2", " 1", "2 "]), phys=rng.random() < 0.7))
             pats.append(pat)
         variants.append(pats)
     # ECU variants may define their own identification services (same names, same request bytes) whose
@@ -52,13 +54,16 @@ def emit(case):
     dops = ('<DATA-OBJECT-PROP ID="BV.dop"><SHORT-NAME>u8</SHORT-NAME><COMPU-METHOD><CATEGORY>IDENTICAL</CATEGORY></COMPU-METHOD>'
             f'{U8}<PHYSICAL-TYPE BASE-DATA-TYPE="A_UINT32"/></DATA-OBJECT-PROP>')
     structs = ('<STRUCTURE ID="BV.st"><SHORT-NAME>st</SHORT-NAME><PARAMS><PARAM xsi:type="VALUE"><SHORT-NAME>id</SHORT-NAME>'
-               '<DOP-REF ID-REF="BV.dop"/></PARAM></PARAMS></STRUCTURE>')
+               '<DOP-REF ID-REF="BV.dop"/></PARAM></PARAMS></STRUCTURE>'
+               '<STRUCTURE ID="BV.st2"><SHORT-NAME>st2</SHORT-NAME><PARAMS><PARAM xsi:type="VALUE"><SHORT-NAME>inner</SHORT-NAME>'
+               '<DOP-REF ID-REF="BV.st"/></PARAM></PARAMS></STRUCTURE>')
     fields = ('<END-OF-PDU-FIELDS><END-OF-PDU-FIELD ID="BV.eop"><SHORT-NAME>eop</SHORT-NAME><BASIC-STRUCTURE-REF ID-REF="BV.st"/>'
               '</END-OF-PDU-FIELD></END-OF-PDU-FIELDS>')
     VAL = {0: '<PARAM xsi:type="VALUE"><SHORT-NAME>id</SHORT-NAME><DOP-REF ID-REF="BV.dop"/></PARAM>',
            1: '<PARAM xsi:type="VALUE"><SHORT-NAME>data</SHORT-NAME><DOP-REF ID-REF="BV.st"/></PARAM>',
            2: '<PARAM xsi:type="VALUE"><SHORT-NAME>id</SHORT-NAME><DOP-REF ID-REF="BV.dop"/></PARAM>',
-           3: '<PARAM xsi:type="VALUE"><SHORT-NAME>items</SHORT-NAME><DOP-REF ID-REF="BV.eop"/></PARAM>'}
+           3: '<PARAM xsi:type="VALUE"><SHORT-NAME>items</SHORT-NAME><DOP-REF ID-REF="BV.eop"/></PARAM>',
+           4: '<PARAM xsi:type="VALUE"><SHORT-NAME>data</SHORT-NAME><DOP-REF ID-REF="BV.st2"/></PARAM>'}
     OTHER = '<PARAM xsi:type="VALUE"><SHORT-NAME>other</SHORT-NAME><DOP-REF ID-REF="BV.dop"/></PARAM>'
 
     def responses(pre, j, shape, lead=""):
@@ -85,7 +90,8 @@ def emit(case):
     def mp(p, tag):
         shape = next(s["shape"] for s in case["services"] if s["j"] == p["svc"])
         out = {0: '<OUT-PARAM-IF-SNREF SHORT-NAME="id"/>', 1: '<OUT-PARAM-IF-SNPATHREF SHORT-NAME-PATH="data.id"/>',
-               2: '<OUT-PARAM-IF-SNREF SHORT-NAME="id"/>', 3: '<OUT-PARAM-IF-SNPATHREF SHORT-NAME-PATH="items.id"/>'}[shape]
+               2: '<OUT-PARAM-IF-SNREF SHORT-NAME="id"/>', 3: '<OUT-PARAM-IF-SNPATHREF SHORT-NAME-PATH="items.id"/>',
+               4: '<OUT-PARAM-IF-SNPATHREF SHORT-NAME-PATH="data.inner.id"/>'}[shape]
         phys = "" if tag == "MATCHING-PARAMETER" else f"<USE-PHYSICAL-ADDRESSING>{'true' if p['phys'] else 'false'}</USE-PHYSICAL-ADDRESSING>"
         return (f'<{tag}><EXPECTED-VALUE>{p["expected"]}</EXPECTED-VALUE><DIAG-COMM-SNREF SHORT-NAME="ident{p["svc"]}"/>{out}{phys}</{tag}>')
 
